@@ -250,3 +250,46 @@ Proof.
 Qed.
 
 End Iff.
+
+(* ------------------------------------------------------------------ *)
+(* 4. the C15 direction for whole programs: a well-formed program outside sprite_ok_ts is refused with an error VALUE *)
+Theorem program_refused (inflate : list Z -> Z -> zres) s tail :
+  wf_prog s -> inflate_ok inflate s -> all_bytes tail -> ~ sprite_ok_ts s ->
+  exists e, load inflate (serialize s ++ tail) = Err e.
+Proof.
+  intros Hwf Hz Htail Hno.
+  assert (Forall is_byte (serialize s ++ tail)) as Hb by (apply Forall_app; split; [exact (serialize_all_bytes s Hwf)|exact Htail]).
+  destruct (load_total inflate _ Hb) as [(f & Hf)|He]; [|exact He].
+  exfalso. apply Hno. exact (load_serialize_ok_inv inflate s tail f Hwf Hz Hf).
+Qed.
+
+(* non-vacuity: the tileset example with tile id 3 in its tilemap cel (the final tileset has 3 tiles, ids 0..2) is a
+   well-formed program outside sprite_ok_ts, and it is refused *)
+Module BadTile.
+Import TilesetExample.
+Definition bad_inflate (z : list Z) (limit : Z) : zres :=
+  match z with
+  | 3 :: _ => ZOk [3; 0; 0; 0; 1; 0; 0; 0]
+  | _ => ex_inflate z limit
+  end.
+Definition bad_frame : frame_prog :=
+  {| fp_duration := 50; fp_count := CountBoth; fp_rsv := [0; 0];
+     fp_items :=
+       [ ITileset (ts7 2 [97]) 6 (repeat 0 14) [9; 9; 9; 9] (TilesZ [1; 42] ts_bytes_a) [];
+         ILayer lay_M 1 [0; 0; 0; 0] [0; 0; 0] [];
+         ITileset (ts7 3 [98]) 6 (repeat 5 14) [0; 0; 0; 0] (TilesZ [2] ts_bytes_b) [];
+         ICelTilemap ccM [0; 0; 0; 0; 0; 0; 0] 2 1 536870911 (repeat 1 12) (repeat 0 10) [3; 3] [3; 0; 0; 0; 1; 0; 0; 0] [] ] |}.
+Definition bad_prog : sprite_prog :=
+  {| sp_header := sp_header ts_prog; sp_junk := sp_junk ts_prog; sp_frames := [bad_frame] |}.
+Example bad_wf : wf_prog bad_prog.
+Proof. wf_go. Qed.
+Example bad_inflate_ok : inflate_ok bad_inflate bad_prog.
+Proof. wf_go. Qed.
+Example bad_not_ok : ~ sprite_ok_ts bad_prog.
+Proof.
+  intros H. apply (load_serialize_total_ts bad_inflate bad_prog [] bad_wf bad_inflate_ok) in H. destruct H as (f & Hf).
+  rewrite app_nil_r in Hf. vm_compute in Hf. discriminate.
+Qed.
+Example bad_refused : exists e, load bad_inflate (serialize bad_prog ++ []) = Err e.
+Proof. exact (program_refused bad_inflate bad_prog [] bad_wf bad_inflate_ok (Forall_nil _) bad_not_ok). Qed.
+End BadTile.
